@@ -203,7 +203,7 @@ impl Prop for C31 {
     type Scn = Scn;
     fn runs(tier: Tier) -> u64 {
         match tier {
-            Tier::Quick => 300_000,
+            Tier::Quick => 600_000,
             Tier::Thorough => 40_000_000,
         }
     }
